@@ -1,7 +1,7 @@
 (* C17 — non-vacuity and sanity runs *)
 From Coq Require Import ZArith List Bool.
 Import ListNotations.
-From GV Require Import Common.Wire C17.Model C17.Lemmas.
+From GV Require Import Common.Wire C17.Model C17.Lemmas C17.GenEquiv C17.GenTransport.
 Open Scope Z_scope.
 
 Definition co1 := Build_coords 11 0 1.
@@ -40,3 +40,21 @@ Proof. vm_compute. reflexivity. Qed.
 Example find_ambiguous_is_none :
   let s := run [OAddNew 0 [2]; OAddDerived 3 [101]; OAddDerived 3 [101]] s0 in find_label s 3 = None.
 Proof. vm_compute. reflexivity. Qed.
+
+(* ---- the generated code (Gen_datamut.v through env17): the same history, with remove / reorder / update_id / update_components
+   taken from the translation of data.py, ends in the same state and is consistent ---- *)
+Example history_generated_same : run_g history s0 = run history s0.
+Proof. vm_compute. reflexivity. Qed.
+Example history_generated_consistent : structurally_consistent (run_g history s0).
+Proof. apply gen_data_inv_reachable_partial. exact history_guarded. Qed.
+(* the generated cascade announces every attribute it removes, innermost first: 103 depends on 102 depends on 101 *)
+Example generated_cascade_log :
+  let s := run [OAddNew 0 [3]; OAddDerived 3 [101]; OAddDerived 4 [102]] (init HubOnly None [] 0) in
+  log (fst (step_g (ORemove 101) s)) = [MRemove 103; MChanged; MRemove 102; MChanged; MRemove 101; MChanged]
+  /\ keys (comps (fst (step_g (ORemove 101) s))) = [100].
+Proof. split; vm_compute; reflexivity. Qed.
+(* generated reorder: wrong length / same order (silent) / a real permutation (announced) *)
+Definition s3 := run (firstn 3 history) s0.
+Eval vm_compute in (snd (g_reorder [100] s3)).
+Eval vm_compute in (log (fst (g_reorder (keys (comps s3)) s3))).
+Eval vm_compute in (log (fst (g_reorder (rev (keys (comps s3))) s3))).
